@@ -60,6 +60,16 @@ func init() {
 	}
 }
 
+// AhoLiterals returns n distinct 4-byte literals none of which is a prefix or substring of another; an alternation of
+// more than 64 of them selects the Aho-Corasick strategy (measured; GenLiterals(70) does not: its members overlap).
+func AhoLiterals(n int) []string {
+	var l []string
+	for i := 0; i < n; i++ {
+		l = append(l, fmt.Sprintf("%c%c%cz", 'a'+i%26, 'a'+(i/26)%26, 'a'+(i*7)%26))
+	}
+	return l
+}
+
 // GenLiterals returns n distinct 3-4 byte literals over a small alphabet, with forced nibble collisions
 // (a/q/A share the low nibble) and prefix extensions (literal k+8 extends literal k-1's prefix).
 func GenLiterals(n int) []string {
